@@ -196,13 +196,19 @@ func Supervise(id, tier string, seed int64) int {
 		}
 	}
 	sort.Ints(agg.hangs)
+	confirmedHangs := 0
 	for k, idx := range agg.hangs {
-		if k >= 2 {
+		// stalls that pass alone are all re-run (a loaded machine may produce
+		// several; their cases must not go missing); once two stalls have
+		// been confirmed alone the tree hangs for real and the verdict is
+		// settled, the remaining ones are not worth minutes each
+		if k >= 12 || confirmedHangs >= 2 {
 			agg.inconclusive = append(agg.inconclusive, fmt.Sprintf("%d further stalls not re-run", len(agg.hangs)-k))
 			break
 		}
 		out := s.runRangeOnce(idx, idx+1, "confirm", 6*s.stall)
 		if len(out.hangs) > 0 {
+			confirmedHangs++
 			if hangViol {
 				agg.viols = append(agg.viols, violAt{idx, Violation{Sig: "hang", Detail: fmt.Sprintf("case %d made no progress for %v twice (alone, 6x allowance)", idx, 6*s.stall)}})
 			} else {
@@ -381,6 +387,7 @@ func (s *supervisor) runRangeOnce(lo, hi int, tag string, stall time.Duration) b
 	go func() { done <- cmd.Wait() }()
 	var lastSize int64 = -1
 	lastChange := time.Now()
+	lastCPU := procCPU(cmd.Process.Pid)
 	hung := false
 	var werr error
 loop:
@@ -392,7 +399,8 @@ loop:
 			if fi, err := os.Stat(journal); err == nil && fi.Size() != lastSize {
 				lastSize = fi.Size()
 				lastChange = time.Now()
-			} else if time.Since(lastChange) > stall {
+				lastCPU = procCPU(cmd.Process.Pid)
+			} else if stalled(cmd.Process.Pid, lastCPU, lastChange, stall) {
 				hung = true
 				cmd.Process.Signal(syscall.SIGQUIT)
 				select {
@@ -438,6 +446,49 @@ loop:
 	os.Remove(outp)
 	os.Remove(errp)
 	return out
+}
+
+// procCPU returns the CPU time (user+system, all threads) the process has
+// consumed so far, or -1 if it cannot be read.
+func procCPU(pid int) time.Duration {
+	b, err := os.ReadFile(fmt.Sprintf("/proc/%d/stat", pid))
+	if err != nil {
+		return -1
+	}
+	// the command name (field 2) may contain spaces: fields are counted behind ')'
+	i := bytes.LastIndexByte(b, ')')
+	if i < 0 {
+		return -1
+	}
+	f := strings.Fields(string(b[i+1:]))
+	if len(f) < 13 {
+		return -1
+	}
+	ut, err1 := strconv.ParseInt(f[11], 10, 64) // utime, field 14
+	st, err2 := strconv.ParseInt(f[12], 10, 64) // stime, field 15
+	if err1 != nil || err2 != nil {
+		return -1
+	}
+	return time.Duration(ut+st) * (time.Second / 100) // USER_HZ = 100
+}
+
+// stalled decides whether a worker that has not finished a case since
+// lastChange is stuck. On a loaded machine a worker may simply not get the
+// processor: the allowance is counted in CPU time the worker has CONSUMED
+// since the last finished case (a case that spins is caught after `stall` of
+// work, however slowly the wall clock lets it do that work). A worker that
+// consumes nothing (deadlock, sleep) is caught by a ten times larger wall
+// clock allowance.
+func stalled(pid int, lastCPU time.Duration, lastChange time.Time, stall time.Duration) bool {
+	wall := time.Since(lastChange)
+	if wall <= stall {
+		return false
+	}
+	now := procCPU(pid)
+	if now < 0 || lastCPU < 0 {
+		return true // no CPU accounting: the wall clock allowance it is
+	}
+	return now-lastCPU > stall || wall > 10*stall
 }
 
 func readResults(p string) []Result {
